@@ -1474,7 +1474,7 @@ class ModGen:
         rng.shuffle(out)
         return out
 
-    def deviations(self, n, systematic=False):
+    def deviations(self, n, systematic=False, round_=None):
         rng = self.rng
         out = []
         pool = [("/t:tc/" + "/".join("t:" + s for s in k.split("/")), v) for k, v in DEVIATES.items()] + list(DEV_OTHER.items())
@@ -1488,7 +1488,7 @@ class ModGen:
             used.append(path)
             dv = S("deviation", path.replace("/t:", "/" + self.T + ":"))
             self.docs(dv)
-            kind, items = rng.choice(alts)
+            kind, items = rng.choice(alts) if round_ is None else alts[round_ % len(alts)]
             d = S("deviate", kind)
             d.subs += self.deviate_subs(items)
             dv.add(d)
@@ -1848,7 +1848,8 @@ class ModGen:
                 S("import", "yme").add(S("prefix", self.X)),
                 self.docs(S("container", self.nm("s2c")).add(self.leaf(Ctx(cfg=True, mand=False, actions=False))), 0.5))
         u = unit()
-        u.subs += self.deviations(rng.choice([0, 0, 1, 2, 4]) if systematic != "deviation" else 99, systematic == "deviation")
+        dev_sys = isinstance(systematic, tuple) and systematic[0] == "deviation"
+        u.subs += self.deviations(rng.choice([0, 0, 1, 2, 4]) if not dev_sys else 99, dev_sys, systematic[1] if dev_sys else None)
         # extensions with plugins (main module: it has the imports)
         unit(True)
         self.has_plugin_ext = False
@@ -2136,7 +2137,9 @@ class ModuleRT:
         self.support = self.support_defs()
         L = []
         L += self.gen_module_cases(rng, "refine", nfeat=1)
-        L += self.gen_module_cases(rng, "deviation", nfeat=1)
+        # every alternative of every deviation target once: round r takes the r-th alternative of each
+        for r in range(max(len(v) for v in DEVIATES.values())):
+            L += self.gen_module_cases(rng, ("deviation", r), nfeat=1)
         for _ in range(self.n(tier, 300, 4000, scale)):
             L += self.gen_module_cases(rng)
         for _ in range(self.n(tier, 6, 200, scale)):
